@@ -22,6 +22,14 @@ package stubs
 //@ extern unicode/utf8.RuneCount
 //@   ensures result >= 0 && result <= len(p) && 4 * result >= len(p)
 
+//@ extern bytes.HasPrefix
+//@   ensures result == (len(prefix) <= len(s) && str(s[:min(len(prefix), len(s))]) == str(prefix))
+//@ ufun pathBaseOf(p string) string
+//@ extern path.Base
+//@   ensures result == pathBaseOf(path)
+//@ extern path/filepath.Base
+//@   ensures result == pathBaseOf(path)
+
 //@ extern bytes.Equal
 //@   ensures result == (str(a) == str(b))
 
